@@ -21,8 +21,8 @@ class ConclusionSelector(LogicalOperator, ABC):
     Tracks whether certain conclusion-combinations were already produced so
     they are not duplicated across truth branches.
     """
-    concluded_before: Dict[bool, SeenSet] = field(default_factory=lambda: {True: SeenSet(), False: SeenSet()},
-                                                  init=False)
+    concluded_before: Dict[bool, Dict[frozenset, SeenSet]] = field(default_factory=lambda: {True: {}, False: {}},
+                                                                   init=False)
 
     def update_conclusion(self, output: Dict[int, HashedValue], conclusions: typing.Set[Conclusion]) -> None:
         if not conclusions:
@@ -32,9 +32,13 @@ class ConclusionSelector(LogicalOperator, ABC):
             vars_ = conclusion._unique_variables_.filter(lambda v: not isinstance(v.value, Literal))
             required_vars.update(vars_)
         required_output = {k: v for k, v in output.items() if k in required_vars}
-        if not self.concluded_before[not self._is_false_].check(required_output):
+        # what was concluded before is recorded per set of conclusions: a binding for which one branch concluded says
+        # nothing about the conclusions of another branch (which may mention more variables).
+        concluded_before = self.concluded_before[not self._is_false_].setdefault(
+            frozenset(id(conclusion) for conclusion in conclusions), SeenSet())
+        if not concluded_before.check(required_output):
             self._conclusion_.update(conclusions)
-            self.concluded_before[not self._is_false_].add(required_output)
+            concluded_before.add(required_output)
 
     @property
     def _right_outputs_are_cacheable_(self) -> bool:
@@ -44,11 +48,11 @@ class ConclusionSelector(LogicalOperator, ABC):
 
     def _reset_only_my_cache_(self) -> None:
         super()._reset_only_my_cache_()
-        self.concluded_before = {True: SeenSet(), False: SeenSet()}
+        self.concluded_before = {True: {}, False: {}}
 
     def _copy_expression_(self, postfix: str) -> SymbolicExpression:
         cp = super()._copy_expression_(postfix)
-        cp.concluded_before = {True: SeenSet(), False: SeenSet()}
+        cp.concluded_before = {True: {}, False: {}}
         return cp
 
     @property
